@@ -16,9 +16,26 @@ def arg(t, v):
     return {"t": t, "b": b32(v) if t in ("i32", "f32") else b64(v)}
 
 
+# (module, field) names as they may appear in a binary: the resolver must receive exactly these bytes.  Non-ASCII
+# bytes followed by hexadecimal digits, octal digits, quotes, backslashes, trigraph and format characters.
+WIRE = [("env", "mem"), ("donn\u00e9es", "base"), ("t\u00eate", "\u00e9a1"), ("a\"b", "c\\d"), ("??/", "%s%n"), ("\x01\x7f", "\u00ff0"),
+        ("m\u00fc7", "\u2603f00d"), ("", "x"), ("x", " "), ("\t", "\n9"), ("caf\u00e9", "\u00e9\u00e9e9"), ("\u20acb", "\U0001f600c0de")]
+
+
+def wire(rng, im, used):
+    """Gives a non-function import one of the names above (each pair at most once per module)."""
+    free = [w for w in WIRE if w not in used]
+    if free and rng.random() < 0.7:
+        w = rng.choice(free)
+        used.append(w)
+        im["wire_mod"], im["wire_name"] = w
+    return im
+
+
 def make_case(cid, rng, memk, tabk, nglob_imp, nglob_def, ndata, nelem, start, two_instances, share):
     """memk/tabk in {none, defined, imported}."""
     types, funcs, exports, imports, globals_ = [], [], [], [], []
+    used = []
 
     def ty(p, r):
         t = {"p": p, "r": r}
@@ -32,14 +49,14 @@ def make_case(cid, rng, memk, tabk, nglob_imp, nglob_def, ndata, nelem, start, t
     for g in range(nglob_imp):
         t = "i32" if g == 0 else rng.choice(VT4)
         mut = (g > 0) and rng.random() < 0.5
-        imports.append({"mod": "env", "name": "gi%d" % g, "kind": "global", "t": t, "mut": mut})
+        imports.append(wire(rng, {"mod": "env", "name": "gi%d" % g, "kind": "global", "t": t, "mut": mut}, used))
         val = b32(rng.choice([3, 5, 9])) if g == 0 else rng.choice(CONSTS[t])
         host_ops.append({"op": "hostglobal", "t": t, "b": val})
         gtypes.append((t, mut))
     if memk == "imported":
-        imports.append({"mod": "env", "name": "mem", "kind": "memory", "min": 1, "max": 2})
+        imports.append(wire(rng, {"mod": "env", "name": "mem", "kind": "memory", "min": 1, "max": 2}, used))
     if tabk == "imported":
-        imports.append({"mod": "env", "name": "tab", "kind": "table", "min": 8, "max": 8})
+        imports.append(wire(rng, {"mod": "env", "name": "tab", "kind": "table", "min": 8, "max": 8}, used))
     for g in range(nglob_def):
         t = rng.choice(VT4)
         mut = rng.random() < 0.6
@@ -235,7 +252,8 @@ def main():
     for j, (memk, tabk, gi, gd, nd, ne, start, two, share) in enumerate(lattice[:n]):
         it, _ = make_case("s%d" % j, rng, memk, tabk, gi, gd, nd, ne, start, two, share)
         items.append(fix_store_addresses(it))
-    builds = [{"name": "gcc-O1", "cc": "gcc", "cflags": ("-O1",)}]
+    builds = [{"name": "gcc-O1", "cc": "gcc", "cflags": ("-O1",)},
+              {"name": "gcc-O1-gnu-ld", "cc": "gcc", "cflags": ("-O1",), "w2c2_opts": ("-m", "-d", "gnu-ld")}]
     if tier != "quick":
         builds.append({"name": "clang-O2", "cc": "clang", "cflags": ("-O2",)})
     st, exp = machine.replay(v, items, builds, sigfn=sig)
@@ -254,6 +272,10 @@ def main():
                    "getters/peeks and the start function's host trace are compared with WasmExec's Instantiate",
            "lattice_size": len(lattice), "shapes_run": len(items), "ops_skipped_undefined": st["ops_skipped_undefined"],
            "builds": [b["name"] for b in builds], "exhaustive": len(items) == len(lattice)}
+    # the repository's own spec-suite corpus for this instruction family: model vs the suite's expectations, w2c2 vs model
+    sys.path.insert(0, os.path.dirname(os.path.abspath(__file__)))
+    import corpus
+    cov.update(corpus.phase(v, "C06", tier))
     return v.finish("model_checking", cov,
                     ["defined tables and globals are observed through exported functions only (public API)",
                      "one memory and one table per module (MVP)"])
